@@ -121,4 +121,19 @@ LEVELS = {
   'note': 'Trusted: Lean kernel; hub model (wait list as total maps + ghost key list); the other hub handlers do not touch the claim fields (SameClaims) - true by the handler characterisations, assembled for bond/convert/check in the model but not as one theorem over hubExec; legacy (pre-v2) entries are outside the invariant.',
   'technique': 'Lean 4 invariant over the unbond state machine (sums over per-batch key lists); claim-sum oracle on every implementation step',
  },
+ 'C08': {
+  'text': 'C08_undelegation_only_after_epoch: an unbond (either token) undelegates only when now - last_unbonded_time > epoch_period, otherwise the history is untouched; the new entry carries the current time; C08_consecutive_written_once: the slot written is the open batch id, provably empty before, and the next id opens (uses the C07 invariant); '
+          'C08_release_respects_time_lock: a withdrawal flips released only for entries with time + unbonding_period <= now, never rewrites a released entry and never changes time/amounts/applied rates of any entry; C08_paid_batches_are_released: entries paid and removed are exactly the caller\'s entries on released batches; '
+          'the undelegated amount equals the history entry (C03_batch_undelegation, C03_undelegate_messages_sum). Boundary seconds are values of `now` (quantified).',
+  'note': 'Trusted: Lean kernel; hub model; E2 (chain unbonding time = hub unbonding_period; matured coins credited before later transactions). Other hub handlers do not write history (by their characterisations: only processUndelegations and processWithdrawRate touch `hist`).',
+  'technique': 'Lean 4 theorems on the batch lifecycle; AllHistory monotonicity oracle between all implementation steps',
+ },
+ 'C01': {
+  'text': 'C01_pays_recorded_share (one bank transfer of exactly the sum over the caller\'s released entries, each valued at the batch\'s final rates; prev_hub_balance = balance - payout; zero share fails), C01_paid_once (no released claim is left for the caller: an immediate second withdrawal finds nothing), '
+          'C01_order_independent (the release is a function of hub state, balance and time only; a withdrawal by v leaves every other user\'s released share unchanged), C01_sum_of_floors (users\' payouts of a side never exceed the side\'s allocation), '
+          'C01_single_batch_side_alloc_le_arrived (for a one-batch release the allocation never exceeds the coins that arrived, under slashing and under unsolicited transfers alike). C01_fix_regression pins the repaired defect D1 (fix commit 94f82c5). '
+          'PARTIAL: for release groups of several batches the allocation bound is not proved; it is false for n>=3 with n*slashed >= 1e18 (C01_release_group_counterexample by decide; corpus/D5.ops on the real hub; known finding D5). The funding invariant over whole histories (hub balance >= sum of released claims) is checked by the oracle after every step, not proved.',
+  'note': 'Trusted: Lean kernel; hub model; E2. Known finding D5 (over-allocation by 1 unit for >=3 batches under a >99% slash of unbonding stake).',
+  'technique': 'Lean 4 theorems on withdraw / release arithmetic; funding, payout, double-pay and unfunded-claim oracles on every implementation step',
+ },
 }
